@@ -109,6 +109,14 @@ def run(code, env, world=None, max_steps=20000, max_paths=4000, feas_ms=3000, st
                     stack.append(BV(len(code)) if tl is None else BV(len(code)) + tl)
                     pc += 1
                 elif name == "codecopy":
+                    oog = Mx.mem_out_of_gas(name, args)
+                    if oog is not None:
+                        bad = w.assume(oog)
+                        if feasible(bad.pc, feas_ms):
+                            outs.append(Outcome("invalid", bad, None, stack=list(stack)))
+                        w = w.assume(z3.Not(oog))
+                        if not feasible(w.pc, feas_ms):
+                            break
                     if not w.writes:
                         w = w.replace(writes=("memory-touched",))
                     w = _codecopy(code, args, w)
@@ -156,6 +164,14 @@ def run(code, env, world=None, max_steps=20000, max_paths=4000, feas_ms=3000, st
                                 work.append((pc, tuple(st2), w.assume(args[0] == av), steps))
                             w = w.assume(args[0] == vals[0])
                             args[0] = BV(vals[0])
+                    oog = Mx.mem_out_of_gas(name, args)
+                    if oog is not None:
+                        bad = w.assume(oog)
+                        if feasible(bad.pc, feas_ms):
+                            outs.append(Outcome("invalid", bad, None, stack=list(stack)))
+                        w = w.assume(z3.Not(oog))
+                        if not feasible(w.pc, feas_ms):
+                            break
                     v, w = exec_op(name, args, w)
                     if isinstance(v, tuple) and v[0] == "guard":
                         bad = w.assume(v[1])
